@@ -561,3 +561,8 @@ def not_after(ctx: Ctx, f: Func, a: ast.AST, b: ast.AST) -> bool:
                 hdrs.append(h)
         p = parent_of(p)
     return cfg.find_path(nb, na, avoid=lambda n: any(n is h for h in hdrs), strict=True) is None
+
+
+def cond_texts_resolved(ctx: Ctx, f: Func, at: ast.AST, conds: List[Tuple[ast.AST, bool]], keep: Iterable[str] = ()) -> Set[str]:
+    """cond_texts with single-definition locals inside the atoms replaced by what they stand for."""
+    return cond_texts([(resolve_expr(ctx, f, at, e, keep=keep), pol) for e, pol in conds])
